@@ -214,6 +214,17 @@ var amplify = []struct{ name, src string }{
 	{"pack", `return #string.pack("s", ("x"):rep(math.min(N, 1 << 26)))`},
 	{"table-insert-front", `local t = {} for i = 1, math.min(N, 3000) do table.insert(t, 1, ("z"):rep(1000)) end return #t`},
 	{"xpcall-retry-alloc", `local kept = {} for round = 1, 100 do xpcall(function() for i = 1, N do kept[#kept + 1] = ("k"):rep(1000) end end, function(m) return m end) end return #kept`},
+	// virtual tables: the range arguments are program-chosen 64-bit integers and
+	// the elements come from metamethods, so the range can really be that long
+	{"concat-virtual-separator", `local t = setmetatable({}, {__index = function() return "" end}) return pcall(table.concat, t, ("-"):rep(16), 1, N)`},
+	{"concat-virtual-items", `local t = setmetatable({}, {__index = function(_, k) return "0123456789abcdef" end}) return pcall(table.concat, t, "", -N, 0)`},
+	{"concat-virtual-numbers", `local t = setmetatable({}, {__index = function(_, k) return k end}) return pcall(table.concat, t, ",", 1, N)`},
+	{"unpack-virtual", `local t = setmetatable({}, {__index = function() return 1 end}) return pcall(function() return select("#", table.unpack(t, 1, N)) end)`},
+	{"move-virtual", `local t = setmetatable({}, {__index = function(_, k) return {k} end}) return pcall(table.move, t, 1, N, 1, {})`},
+	{"insert-virtual-length", `local t = setmetatable({}, {__len = function() return N end, __index = function() return 1 end}) return pcall(table.insert, t, 1, "x")`},
+	{"remove-virtual-length", `local t = setmetatable({}, {__len = function() return N end, __index = function() return 1 end}) return pcall(table.remove, t, 1)`},
+	{"sort-virtual-length", `local t = setmetatable({}, {__len = function() return N end, __index = function() return 1 end, __newindex = function() end}) return pcall(table.sort, t)`},
+	{"gsub-virtual-replacement", `local r = setmetatable({}, {__index = function() return ("y"):rep(1000) end}) return #(("x"):rep(math.min(N, 1 << 16)):gsub("x", r))`},
 	// retention: N rounds each keep ~1.5 KB alive; the round's allocation and
 	// the releases around it happen in differently nested contexts
 	{"retain-plain", `local keep = {} for i = 1, N do keep[#keep + 1] = ("x"):rep(SZ) if #keep % 64 == 0 then emit("retained", #keep * SZ) end end return #keep`},
@@ -327,6 +338,15 @@ func interceptTemplates() []struct{ name, src string } {
 			out = append(out, struct{ name, src string }{s.name + "/" + w.name, strings.ReplaceAll(w.src, "CALL", call)})
 		}
 	}
+	// finalisers that allocate for ever, run when the context is left
+	for _, x := range []struct{ name, src string }{
+		{"gc-handler/at-context-exit", `setmetatable({}, {__gc = ALLOC}) emit("body-done")`},
+		{"gc-handler/at-context-exit-after-error", `setmetatable({}, {__gc = ALLOC}) error("body-fails")`},
+		{"gc-handler/at-nested-context-exit-after-error", `local ctx = runtime.callcontext({kill = {memory = 1e15}}, function() setmetatable({}, {__gc = ALLOC}) error("body-fails") end) emit("survived", ctx.status)`},
+		{"gc-handler/set-by-close-handler-after-error", `local c <close> = setmetatable({}, {__close = function() setmetatable({}, {__gc = ALLOC}) end}) error("body-fails")`},
+	} {
+		out = append(out, struct{ name, src string }{x.name, strings.ReplaceAll(x.src, "ALLOC", allocFn)})
+	}
 	return out
 }
 
@@ -427,7 +447,7 @@ func TestC06(t *testing.T) {
 		}
 	}
 	// (2) amplification
-	sizes := []uint64{1000, 1 << 20, 1 << 31, 1 << 40}
+	sizes := []uint64{1000, 1 << 20, 1 << 31, 1 << 40, 1<<60 + 1}
 	if rec.Thorough() {
 		sizes = []uint64{1000, 65536, 1 << 20, 1 << 26, 1 << 31, 1 << 32, 1 << 40, 1<<62 + 1}
 	}
